@@ -81,6 +81,7 @@ fn pool_tests(t: &mut T) {
             Bcast { n: 2, api: Api::ParExtend, panics: vec![1], helper_caller: false },
         ],
         spurious_parks: vec![],
+        cas_weak_fail: vec![],
     };
     let (r, out) = scn.execute(scn.run_config(1, StrategySpec::Random { switch_permille: 350 }));
     t.expect("pool/valid/C06", &pool::check_c06(&scn, &r, &out), None);
